@@ -116,6 +116,7 @@ type Engine struct {
 	lemmaPkg  map[string]string
 	repo      string
 	contractHome map[*Contract]string
+	immutable map[string]bool // pkgpath.Name of package-level variables treated as constants
 }
 
 type Unit struct {
@@ -165,6 +166,7 @@ type Unit struct {
 	loopPre  []*State
 	elemAlias map[types.Object]elemAlias
 	returnOrd map[*ast.ReturnStmt]int
+	curCallArgs []ast.Expr
 }
 
 func (u *Unit) fresh(prefix, sort string) string {
